@@ -37,11 +37,29 @@ def gen_activation():
                  "columns[c] = (columns[c] == 'y')", "columns[c] = float(columns[c]) if columns[c].strip() else 0.",
                  "dict(zip(COLUMN_NAMES, columns))", "table[kw['Z']][kw['A']]"):
         need(frag in init, "activation.init no longer contains %r: the reader model must be revisited" % frag)
-    # does activity() still switch to the small-argument formula?  (the model follows the source)
-    body_act = ast.get_source_segment(src, _func(tree, "activity"))
-    has_test = "abs(U) < 1e-10 and abs(V) < 1e-10" in body_act
-    has_formula = "W * (V-U+(V+U)/2)" in body_act
-    need(has_test == has_formula, "activity(): the small-argument test and its formula no longer go together")
+    # activity(), single-capture branch: which of the two forms the source has (the model follows it;
+    # anything else fails closed)
+    body_act = ast.get_source_segment(src, _func(tree, "activity")).replace(" ", "")
+    for frag in ("U=flux*initialXS*3600*1e-24*exposure", "V=(env.fluence*effectiveXS*3600*1e-24+lam)*exposure",
+                 "W=lam/(lam-flux*initialXS*3600*1e-24+env.fluence*effectiveXS*3600*1e-24)",
+                 "activity=root*precision_correction", "ifactivity<0:", "raiseRuntimeError(msg)",
+                 "root=flux*initialXS*1e-24*mass/isotope.isotope*1.6278e19", "lam=LN2/ai.Thalf_hrs",
+                 "result[ai]=[activity*exp(-lam*Ti)forTiinrest_times]",
+                 "ifai.fastandenv.fast_ratio==0:", "flux=env.fluence/env.fast_ratioifai.fastelseenv.fluence",
+                 "initialXS=ai.thermalXS+env.epithermal_reduction_factor*ai.resonance"):
+        need(frag in body_act, "activity() no longer contains %r: the model must be revisited" % frag)
+    old_form = ("ifabs(U)<1e-10andabs(V)<1e-10:" in body_act and "precision_correction=W*(V-U+(V+U)/2)" in body_act
+                and "precision_correction=W*(exp(-U)-exp(-V))" in body_act)
+    new_form = ("x=(lam-flux*initialXS*3600*1e-24+env.fluence*effectiveXS*3600*1e-24)*exposure" in body_act
+                and "ifx>=0:" in body_act and "precision_correction=W*exp(-U)*-expm1(-x)" in body_act
+                and "precision_correction=W*exp(-V)*expm1(x)" in body_act)
+    need(old_form != new_form, "activity(): unrecognised form of the burn-up branch")
+    need(("abs(U)<1e-10" in body_act) == old_form and ("expm1(x)" in body_act) == new_form,
+         "activity(): the burn-up branch mixes the two known forms")
+    msg_g = 'msg="activity%glessthanzerofor%g"%(activity,isotope)' in body_act
+    msg_s = 'msg="activity%glessthanzerofor%s"%(activity,isotope)' in body_act
+    need(msg_g != msg_s, "activity(): unrecognised error message")
+    has_test = old_form
     # Sample.decay_time: the two lines whose form the model follows (fail closed on anything else)
     cls = [n for n in tree.body if isinstance(n, ast.ClassDef) and n.name == "Sample"]
     need(len(cls) == 1, "expected exactly one class Sample")
@@ -75,7 +93,9 @@ def gen_activation():
         "Definition act_int_columns : list Z := [%s]%%Z." % "; ".join(str(i) for i in ints),
         "Definition act_bool_columns : list Z := [%s]%%Z." % "; ".join(str(i) for i in bools),
         "Definition act_float_columns : list Z := [%s]%%Z." % "; ".join(str(i) for i in floats),
-        "Definition act_small_branch : bool := %s." % ("true" if has_test else "false"),
+        "Definition act_small_branch : bool := %s." % ("true" if old_form else "false"),
+        "Definition act_expm1_form : bool := %s." % ("true" if new_form else "false"),
+        "Definition act_error_formats_isotope_with_g : bool := %s." % ("true" if msg_g else "false"),
         "Definition dt_early_exit_vs_target : bool := %s." % ("true" if early_old else "false"),
         "Definition dt_df_rest_factor : bool := %s." % ("true" if df_old else "false"),
     ])
